@@ -351,7 +351,8 @@ type worker struct {
 	rnd  *renderer
 	// leaf keys that failed on their own in this box (observed), by canonical text
 	failedLeaf     map[string]bool
-	readOnlyFailed bool // failedLeaf is shared with other workers and complete: do not write
+	readOnlyFailed bool    // failedLeaf is shared with other workers and complete: do not write
+	replayVia      *string // --replay: the attribution recorded with the stored case
 }
 
 func dial(addr string) (*wire.Client, error) {
@@ -695,7 +696,7 @@ func (w *worker) violate(c *tcase, cmd, kind, text, detail string) {
 	}
 	w.sh.r.Violate(key, fmt.Sprintf("box %s (%s): %s %s\n%s\nspec expects %s seqs=%v uids=%v",
 		w.def.Def, w.describeBox(), cmd2text(cmd), text, detail, c.Exp.Res, c.Exp.Seqs, c.Exp.Uids),
-		map[string]interface{}{"box": w.def, "case": c, "text": text})
+		map[string]interface{}{"box": w.def, "case": c, "text": text, "via": w.via(c)})
 }
 
 func cmd2text(cmd string) string {
@@ -722,6 +723,9 @@ func (w *worker) describeBox() string {
 
 // via names the leaf kinds of the case that already failed as single keys in this box.
 func (w *worker) via(c *tcase) string {
+	if w.replayVia != nil {
+		return *w.replayVia
+	}
 	if isLeafCase(c) {
 		return ""
 	}
@@ -931,13 +935,14 @@ func run(r *ev.Run, tier, replay string) {
 				Box  *boxdef `json:"box"`
 				Case *tcase  `json:"case"`
 				Text string  `json:"text"`
+				Via  string  `json:"via"`
 			} `json:"replay"`
 		}
 		if err := json.Unmarshal(b, &rp); err != nil || rp.Replay.Box == nil || rp.Replay.Case == nil {
 			r.Machinery("replay file: %v", err)
 			return
 		}
-		w := &worker{sh: sh, def: rp.Replay.Box, rnd: &renderer{rnd: rand.New(rand.NewSource(seed))}, failedLeaf: map[string]bool{}}
+		w := &worker{sh: sh, def: rp.Replay.Box, rnd: &renderer{rnd: rand.New(rand.NewSource(seed))}, failedLeaf: map[string]bool{}, replayVia: &rp.Replay.Via}
 		w.runBox([]*tcase{rp.Replay.Case}, map[*tcase]string{rp.Replay.Case: rp.Replay.Text})
 		r.Set("states", 1)
 		r.Set("transitions", 1)
